@@ -317,7 +317,12 @@ static void do_op(int isbuf, int w, char **t, int nt)
         char *s = t[2];
         int rc;
         free(many);
-        many = (unsigned char *)malloc(strlen(s) + siz + 1);
+        {
+            size_t commas = 1;
+            char const *c;
+            for (c = s; *c; ++c) { commas += *c == ','; }
+            many = (unsigned char *)malloc(commas * siz + 1);
+        }
         if (strcmp(s, "-"))
         {
             char *q = s;
@@ -404,7 +409,7 @@ int main(void)
                 memcpy(sched, tok[2], sched_n);
             }
             printf("H %ld\n", hist++);
-            if (linebuf) { fflush(stdout); }
+            fflush(stdout); /* a crash is attributed to the last history announced */
             continue;
         }
         if (!strcmp(tok[0], "vn"))
